@@ -318,7 +318,7 @@ func registerStdlib(m map[string]intrinsicFn) {
 		}
 		return IfaceV{}
 	}
-	for _, n := range []string{"compress/gzip.NewReader", "compress/gzip.NewWriterLevel", "compress/gzip.NewWriter", "image/jpeg.Decode", "image/jpeg.Encode"} {
+	for _, n := range []string{"image/jpeg.Decode", "image/jpeg.Encode"} {
 		name := n
 		m[name] = func(in *Interp, fn *ssa.Function, args []Value) Value {
 			panic(cutPath{name + " (codec outside every claim)"})
@@ -675,4 +675,123 @@ func registerSort(m map[string]intrinsicFn) {
 	}
 	m["sort.Slice"] = sortSlice
 	m["sort.SliceStable"] = sortSlice
+}
+
+// ---- compress/gzip as a lossless box ------------------------------------------------------------------------------
+// A Writer collects what is written and, on Close, emits an 8-byte box naming the collected bytes; a Reader over a box
+// yields exactly those bytes.  A Reader over anything else (arbitrary or symbolic bytes) either fails with a header
+// error or yields arbitrary bytes (a valid gzip stream can decode to anything): both outcomes are explored.
+
+type gzipW struct {
+	w   IfaceV
+	buf []*Term
+}
+
+type gzipR struct {
+	content []*Term
+	pos     int
+}
+
+func (in *Interp) ioEOF() Value {
+	p := in.prog.ImportedPackage("io")
+	if p == nil {
+		in.unsupportedf("io package not loaded")
+	}
+	g := p.Var("EOF")
+	return in.loadNode(in.globalNode(g))
+}
+
+func registerGzipBox(m map[string]intrinsicFn) {
+	newW := func(in *Interp, w Value) Value {
+		in.nodeSeq++
+		return PtrV{N: &Node{V: &gzipW{w: w.(IfaceV)}, T: types.Typ[types.Int], id: in.nodeSeq}}
+	}
+	m["compress/gzip.NewWriter"] = func(in *Interp, fn *ssa.Function, args []Value) Value { return newW(in, args[0]) }
+	m["compress/gzip.NewWriterLevel"] = func(in *Interp, fn *ssa.Function, args []Value) Value {
+		return TupleV{newW(in, args[0]), IfaceV{}}
+	}
+	m["(*compress/gzip.Writer).Write"] = func(in *Interp, fn *ssa.Function, args []Value) Value {
+		w := args[0].(PtrV).N.V.(*gzipW)
+		bs := in.byteTerms(args[1])
+		w.buf = append(w.buf, bs...)
+		return TupleV{in.tb.Const(64, uint64(len(bs))), IfaceV{}}
+	}
+	m["(*compress/gzip.Writer).Flush"] = func(in *Interp, fn *ssa.Function, args []Value) Value { return IfaceV{} }
+	m["(*compress/gzip.Writer).Close"] = func(in *Interp, fn *ssa.Function, args []Value) Value {
+		w := args[0].(PtrV).N.V.(*gzipW)
+		in.gzVals = append(in.gzVals, append([]*Term{}, w.buf...))
+		k := len(in.gzVals) - 1
+		bs := []*Term{in.tb.Const(8, 'G'), in.tb.Const(8, 'Z'), in.tb.Const(8, 'P'), in.tb.Const(8, '#'),
+			in.tb.Const(8, uint64(k>>24)), in.tb.Const(8, uint64(k>>16)), in.tb.Const(8, uint64(k>>8)), in.tb.Const(8, uint64(k))}
+		in.abstractUsed = true
+		r := in.callMethod(w.w, "Write", in.byteSliceOf(bs)).(TupleV)
+		return r[1]
+	}
+	m["compress/gzip.NewReader"] = func(in *Interp, fn *ssa.Function, args []Value) Value {
+		src := args[0].(IfaceV)
+		var raw []*Term
+		for iter := 0; iter < 64; iter++ {
+			buf := in.byteSliceOf(make([]*Term, 0))
+			arr := in.newArrayNode(types.Typ[types.Uint8], 64)
+			buf = SliceV{Arr: arr, Len: 64, Cap: 64}
+			r := in.callMethod(src, "Read", buf).(TupleV)
+			n := in.concInt(r[0], "gzip source Read n")
+			for i := 0; i < n; i++ {
+				raw = append(raw, in.sliceGet(buf, i).(*Term))
+			}
+			if e, ok := r[1].(IfaceV); (ok && e.T != nil) || n == 0 {
+				break
+			}
+		}
+		in.abstractUsed = true
+		in.nodeSeq++
+		mk := func(content []*Term) Value {
+			return TupleV{PtrV{N: &Node{V: &gzipR{content: content}, T: types.Typ[types.Int], id: in.nodeSeq}}, IfaceV{}}
+		}
+		if len(raw) == 8 {
+			allConst := true
+			var hdr [8]byte
+			for i, t := range raw {
+				if !t.IsConst() {
+					allConst = false
+					break
+				}
+				hdr[i] = byte(t.C)
+			}
+			if allConst && string(hdr[:4]) == "GZP#" {
+				k := int(hdr[4])<<24 | int(hdr[5])<<16 | int(hdr[6])<<8 | int(hdr[7])
+				if k < len(in.gzVals) {
+					return mk(append([]*Term{}, in.gzVals[k]...))
+				}
+			}
+		}
+		// not a box: a header error, or (a valid stream can hold anything) arbitrary decoded bytes
+		switch in.choose(3) {
+		case 0:
+			return TupleV{PtrV{}, in.newError("gzip: invalid header")}
+		case 1:
+			return mk(nil)
+		}
+		in.codecSeq++
+		var content []*Term
+		for i := 0; i < 16; i++ {
+			content = append(content, in.tb.Var(fmt.Sprintf("gzip.dec.%d[%d]", in.codecSeq, i), 8))
+		}
+		return mk(content)
+	}
+	m["(*compress/gzip.Reader).Read"] = func(in *Interp, fn *ssa.Function, args []Value) Value {
+		r := args[0].(PtrV).N.V.(*gzipR)
+		dst := args[1].(SliceV)
+		if r.pos >= len(r.content) {
+			return TupleV{in.tb.Const(64, 0), in.ioEOF()}
+		}
+		n := 0
+		for n < dst.Len && r.pos < len(r.content) {
+			in.sliceSet(dst, n, r.content[r.pos])
+			n++
+			r.pos++
+		}
+		return TupleV{in.tb.Const(64, uint64(n)), IfaceV{}}
+	}
+	m["(*compress/gzip.Reader).Close"] = func(in *Interp, fn *ssa.Function, args []Value) Value { return IfaceV{} }
 }
